@@ -212,6 +212,7 @@ def run_property(pid, tier):
             "source_hash": repo.source_hash, "repo_root": repo.root,
             "dropped_constructs": sorted({n for q in fns for n in results[q]["notes"] if n.startswith("dropped")}),
             "known_findings_reproduced": known_lines,
+            "bounded_standins": list(getattr(cfg.extra, "standins", []) or []) if cfg.extra is not None else [],
             "closure_rounds": rounds,
         },
         "assumptions": COMMON_ASSUMPTIONS + cfg.assumptions + t2_used + sorted({n for q in fns for n in results[q]["notes"] if not n.startswith("dropped")}),
